@@ -15,6 +15,7 @@ TARGETS = {
 CHECKS = {
     "C20": dict(
         promote=True,   # thorough bounds cost seconds: used for the quick tier as well
+        deep=True,      # ./check adds --deep for the thorough tier: bounds beyond the promoted ones (see bounds["thorough"])
         level="model_checking",
         runs=[dict(name="wipe", target="h_wipe", args=[], quick=[], thorough=[])],
         deadline=dict(quick=150, thorough=600),
